@@ -44,6 +44,7 @@ pub mod c24;
 pub mod c25;
 pub mod c26;
 pub mod c27;
+pub mod c27e;
 pub mod c28;
 pub mod c29;
 pub mod c30;
